@@ -41,6 +41,8 @@ for r in res:
         "checks": checks,
         "caught_by": caught_by,
     }
+    for k in ("demo_note", "patch_note"):
+        if r.get(k): meta[k] = r[k]
     if f"{pid}-{m}" in history:
         meta["history"] = history[f"{pid}-{m}"]
     json.dump(meta, open(f"{d}/meta.json", "w"), indent=1)
